@@ -380,6 +380,17 @@ impl JwkDocumentExt for CoreDocument {
 
       header.set_alg(alg);
       if let Some(custom) = &options.custom_header_parameters {
+        // Registered header parameters have dedicated options. Passed as custom parameters they are serialized next
+        // to (or instead of) the values set here and contradict them: a second `kid` / `typ` / `alg` member that the
+        // decoder rejects, or a `b64` that does not describe how the payload was encoded.
+        const REGISTERED: [&str; 15] = [
+          "alg", "jku", "jwk", "kid", "x5u", "x5c", "x5t", "x5t#S256", "typ", "cty", "crit", "b64", "url", "nonce", "ppt",
+        ];
+        if let Some(name) = custom.keys().find(|name| REGISTERED.contains(&name.as_str())) {
+          return Err(Error::EncodingError(
+            format!("custom header parameter `{name}` is a registered header parameter").into(),
+          ));
+        }
         header.set_custom(custom.clone())
       }
 
